@@ -15,6 +15,12 @@ func genC13(rt *rapid.T) *C13Spec {
 	}
 	s := &C13Spec{MB: rapid.Bool().Draw(rt, "mb")}
 	s.Prefix = genHistory(rt, cfg, 25)
+	if rapid.IntRange(0, 24).Draw(rt, "bulk") == 7 {
+		// a big buffer: accessors, Reset and Take in the size classes where
+		// size-dependent shortcuts apply
+		at := rapid.IntRange(0, len(s.Prefix)).Draw(rt, "bulkat")
+		s.Prefix = append(append(append([]*Op(nil), s.Prefix[:at]...), genBulkOp(rt, cfg, "bulk")), s.Prefix[at:]...)
+	}
 	s.Reset = []string{"", "Reset", "TakeS", "TakeB"}[rapid.IntRange(0, 3).Draw(rt, "reset")]
 	s.Suffix = genHistory(rt, cfg, 10)
 	if rapid.Bool().Draw(rt, "grow") {
